@@ -207,6 +207,12 @@ thread_local! {
 
 /// Installs a silent panic hook that records message and location per thread.
 pub fn install_panic_hook() {
+    // The playground entry point replaces the process-wide panic hook on its first call
+    // (console_error_panic_hook::set_once): get that over with before installing the recording hook.
+    static PLAYGROUND_HOOK: std::sync::Once = std::sync::Once::new();
+    PLAYGROUND_HOOK.call_once(|| {
+        let _ = oal_wasm::compile("");
+    });
     std::panic::set_hook(Box::new(|info| {
         let message = if let Some(s) = info.payload().downcast_ref::<&str>() {
             (*s).to_owned()
